@@ -380,6 +380,7 @@ func (c *BufConn) ReadAllAvailable() []byte {
 	b := c.in.buf
 	c.in.buf = nil
 	c.readBytes.Add(int64(len(b)))
+	c.in.cond.Broadcast() // a writer waiting for room in a bounded pipe
 	return b
 }
 
